@@ -137,7 +137,8 @@ type Value struct {
 	Vs   []Value `json:"vs,omitempty"`
 	G    string  `json:"g,omitempty"`
 	Kind string  `json:"kind,omitempty"`
-	U    *Value  `json:"u,omitempty"` // t = "named": the underlying scalar of a defined / sized Go type
+	U    *Value  `json:"u,omitempty"`   // t = "named": the underlying scalar of a defined / sized Go type
+	Big  []int   `json:"big,omitempty"` // t = "int": the decimal digits (code points) of an integer beyond TLC's range
 	// objects (C20)
 	Shape string  `json:"shape,omitempty"`
 	Ptr   bool    `json:"ptr,omitempty"`
@@ -162,7 +163,22 @@ type ptrHolder struct {
 	N int
 }
 
+// bigInt: an integer given by its digits; int where it fits, uint64 above that
+func bigInt(digits []int) interface{} {
+	txt := textOf(digits, nil, false)
+	if n, err := strconv.ParseInt(txt, 10, 64); err == nil {
+		return int(n)
+	}
+	if n, err := strconv.ParseUint(txt, 10, 64); err == nil {
+		return n
+	}
+	panic("harness: bad big integer " + txt)
+}
+
 func toGo(v Value) interface{} {
+	if v.T == "int" && len(v.Big) > 0 {
+		return bigInt(v.Big)
+	}
 	switch v.T {
 	case "shape":
 		return shapeOfKind(v.Kind)
@@ -335,6 +351,12 @@ func toGo(v Value) interface{} {
 			return h
 		}
 		switch v.G {
+		case "mfsnan": // map[float64]string: the given keys plus two NaN keys
+			out := map[float64]string{math.NaN(): "n", math.NaN(): "m"}
+			for i, k := range v.Ks {
+				out[float64(k.I)] = textOf(v.Vs[i].S, nil, false)
+			}
+			return out
 		case "mss":
 			out := map[string]string{}
 			for i, k := range v.Ks {
@@ -584,6 +606,16 @@ func namedScalar(v Value) interface{} {
 			return uint64(x)
 		case "f32":
 			return float32(x)
+		case "i32":
+			return int32(x)
+		case "u32":
+			return uint32(x)
+		case "uint":
+			return uint(x)
+		case "lvla":
+			return levelA(x)
+		case "lvlb":
+			return levelB(x)
 		}
 		return levelT(x)
 	case float64:
